@@ -62,12 +62,33 @@ def init_effects(p, f):
     return eff
 
 
+def _unconditional(f, inst):
+    """executed whenever the function does anything: its block post-dominates every block in which
+    work starts (the first blocks with a store or call reached from the entry)"""
+    busy = set(b.name for b in f.rblocks() if any(i.op == "store" or (i.is_call() and not (i.callee or "").startswith("llvm.dbg")) for i in b.insts))
+    first = set()
+    st = [f.entry.name]
+    seen = set()
+    while st:
+        n = st.pop()
+        if n in seen:
+            continue
+        seen.add(n)
+        if n in busy:
+            first.add(n)
+            continue
+        st.extend(f.bmap[n].succs)
+    return all(inst.block.name == fb or f.postdominates(inst.block.name, fb) for fb in first)
+
+
 def empty_effects(p, f):
     eff = {}
 
     def rootp(r):
         return r == ("a", 0)
     for i in f.all_insts():
+        if (i.op == "store" or i.is_call()) and not _unconditional(f, i):
+            continue
         if i.op == "store":
             fld, rest = _obj_field(f, i.ops[1], rootp)
             if fld is None:
